@@ -18,8 +18,9 @@ ASSUMPTIONS = ["A-VM", "A-U64",
                "the model takes the farm-level facts of every operation (emission of the settlement, supply after the "
                "operation, the caller's total farm position before the operation, the caller's energy entry) as inputs read "
                "from the real contracts — the same style as Model/Farm.v's boosted input b, which is this model's output",
-               "farm-with-locked-rewards and farm-staking host the same module (same source files); their histories are "
-               "not run here"]
+               "farm-with-locked-rewards and farm-staking host the same module; their own histories are explored too "
+               "(tools/sys_boosted_hosts.py, Model/BoostedHosts.v); there, claims for another user are exercised by writing "
+               "allowExternalClaim straight into storage (this version of config.rs has no setter endpoint)"]
 RULE = ("stateful mostly-valid generator over 4 users with different and changing energies (long locks, locks running out "
         "inside the window, below the minimum energy, zero, tokens without energy) on the real dex/farm with boosted yields: "
         "enter (with merge) / claim / compound / exit (partial) / merge / claimBoostedRewards, farm-token transfers between "
@@ -320,7 +321,10 @@ def explore(tier, seed, model_ok=True, focus=False):
     (Model/FarmFull.v): weekly pools never over-subscribed, the guard on remaining(week) never fires"""
     ex = explore_module(tier, seed, model_ok, focus)
     from props import farm_full_common as ffc
-    return ffc.merge_exploration(ex, ffc.explore_farm_full("C11", tier, seed, ffc.monitors_for_c11, ffc.nontrivial_all, ffc.RULE, model_ok, focus, scale=0.5))
+    ex = ffc.merge_exploration(ex, ffc.explore_farm_full("C11", tier, seed, ffc.monitors_for_c11, ffc.nontrivial_all, ffc.RULE, model_ok, focus, scale=0.5))
+    # the same module inside the two other hosts: farm-with-locked-rewards and farm-staking (Model/BoostedHosts.v)
+    from props import c11_hosts_common as hc
+    return hc.merge_exploration(ex, hc.explore_hosts("C11", tier, seed, model_ok, focus, scale=0.5))
 
 
 def replay_module(data):
@@ -337,4 +341,7 @@ def replay(data):
     if data.get("replay", {}).get("system") == "farm-full":
         from props import farm_full_common as ffc
         return ffc.replay_farm_full(data, ffc.monitors_for_c11)
+    if data.get("replay", {}).get("system") in ("boosted-locked", "boosted-staking"):
+        from props import c11_hosts_common as hc
+        return hc.replay_hosts(data)
     return replay_module(data)
